@@ -342,6 +342,11 @@ pub struct NodeSpec {
     pub jitter: Duration,
     /// build the network with a (pass-through) user outbound request layer
     pub user_outbound_layer: bool,
+    /// let the harness switch on settings that must not change any behaviour the scenario looks
+    /// at (huge default timeouts, a huge connection limit, an alternate network name, a
+    /// pass-through outbound layer, a tiny mailbox, ...): correctness must not silently depend on
+    /// one configuration
+    pub vary_benign: bool,
 }
 
 pub struct Node {
@@ -368,7 +373,16 @@ impl World {
             config,
             jitter: Duration::from_millis(0),
             user_outbound_layer: false,
+            vary_benign: true,
         }
+    }
+
+    /// like [`World::spec`], for scenarios whose subject is exactly the settings the benign
+    /// variation would touch
+    pub fn spec_exact(&self, idx: u8, config: anemo::Config) -> NodeSpec {
+        let mut s = self.spec(idx, config);
+        s.vary_benign = false;
+        s
     }
 
     /// Start a real `anemo::Network` on the fabric.
@@ -378,6 +392,39 @@ impl World {
         S: tower::Service<Request<Bytes>, Response = Response<Bytes>, Error = Infallible>,
         <S as tower::Service<Request<Bytes>>>::Future: Send + 'static,
     {
+        let mut spec = spec;
+        if spec.vary_benign {
+            use rand::Rng;
+            let mut r = self.rng(&format!("cfg:benign:{}:{}", spec.idx, spec.port));
+            let c = &mut spec.config;
+            if c.inbound_request_timeout_ms.is_none() && r.gen_bool(0.25) {
+                c.inbound_request_timeout_ms = Some(36_000_000);
+            }
+            if c.outbound_request_timeout_ms.is_none() && r.gen_bool(0.25) {
+                c.outbound_request_timeout_ms = Some(36_000_000);
+            }
+            if c.max_concurrent_connections.is_none() && r.gen_bool(0.25) {
+                c.max_concurrent_connections = Some(10_000);
+            }
+            if c.connection_manager_channel_capacity.is_none() && r.gen_bool(0.25) {
+                c.connection_manager_channel_capacity = Some(r.gen_range(1..4));
+            }
+            if c.max_frame_size.is_none() && r.gen_bool(0.2) {
+                c.max_frame_size = Some(64 << 20);
+            }
+            if let Some(q) = c.quic.as_mut() {
+                if q.max_concurrent_uni_streams.is_none() && r.gen_bool(0.2) {
+                    q.max_concurrent_uni_streams = Some(r.gen_range(1..4));
+                }
+            }
+            if spec.alt_name.is_none() && r.gen_bool(0.25) {
+                spec.alt_name = Some("sim-alternate".into());
+            }
+            if !spec.user_outbound_layer && r.gen_bool(0.25) {
+                spec.user_outbound_layer = true;
+            }
+            self.probe("benign-config-variation");
+        }
         let a = addr_port(spec.idx, spec.port);
         let socket = self.fabric.bind(a)?;
         let rt = Arc::new(SimRuntime::default());
